@@ -309,6 +309,93 @@ def fixModel (w : World) : List Top → World × Bool × Bool
       let r := fixModel st.toWorld ts
       (r.1, st.modified || r.2.1, r.2.2)
 
+/-! ### specification vocabulary for the NameFixPass theorems
+
+`iv g` = the values held by `graph g`'s initializer dictionary.  These functions do not look at
+names: they describe which values a traversal meets in which scope. -/
+
+/-- the values held by the initializer dictionary of graph `g` -/
+def World.inits (w : World) (g : Nat) : List Nat := (w.dicts g).map (·.2)
+
+/-- values processed by `enter_graph` -/
+def gvals (iv : Nat → List Nat) (g : Nat) (isG : Bool) (ins outs : List Nat) : List Nat :=
+  ins ++ outs ++ (if isG then iv g else [])
+
+/-- `seen_values` (as a list) after the traversal of `t`, started with `S` -/
+def seenAfter (iv : Nat → List Nat) : Tr → List Nat → List Nat
+  | .nil, S => S
+  | .node _ ins outs subs rest, S => seenAfter iv rest (seenAfter iv subs (S ++ nodeVals ins outs))
+  | .graph g isG ins outs body rest, S => seenAfter iv rest (seenAfter iv body (S ++ gvals iv g isG ins outs))
+
+/-- the values recorded in the *current* scope after the items of `t` (nested graphs record into
+their own scopes: for a list `subs` of graph items `bodyVis subs V = V`) -/
+def bodyVis : Tr → List Nat → List Nat
+  | .nil, V => V
+  | .node _ ins outs subs rest, V => bodyVis rest (bodyVis subs (V ++ nodeVals ins outs))
+  | .graph _ _ _ _ _ rest, V => bodyVis rest V
+
+/-- **the scoping rule**: whenever the traversal meets a value it has met before (`S`), that
+value is visible in the current scope (`V` = the values recorded in this graph so far and in the
+enclosing graphs before this graph was entered).  I.e. a value is only used in the graph that
+first mentions it or in graphs nested inside that graph after the first mention. -/
+def scopedB (iv : Nat → List Nat) : Tr → List Nat → List Nat → Bool
+  | .nil, _, _ => true
+  | .node _ ins outs subs rest, S, V =>
+    (nodeVals ins outs).all (fun v => !S.contains v || V.contains v)
+    && scopedB iv subs (S ++ nodeVals ins outs) (V ++ nodeVals ins outs)
+    && scopedB iv rest (seenAfter iv subs (S ++ nodeVals ins outs)) (bodyVis subs (V ++ nodeVals ins outs))
+  | .graph g isG ins outs body rest, S, V =>
+    (gvals iv g isG ins outs).all (fun v => !S.contains v || V.contains v)
+    && scopedB iv body (S ++ gvals iv g isG ins outs) (V ++ gvals iv g isG ins outs)
+    && scopedB iv rest (seenAfter iv body (S ++ gvals iv g isG ins outs)) V
+
+/-- for every graph under `t`: the values whose names must be pairwise different — those recorded
+in enclosing scopes before the graph was entered, followed by the graph's own values -/
+def allScopes (iv : Nat → List Nat) : Tr → List Nat → List (List Nat)
+  | .nil, _ => []
+  | .node _ ins outs subs rest, V =>
+    allScopes iv subs (V ++ nodeVals ins outs) ++ allScopes iv rest (bodyVis subs (V ++ nodeVals ins outs))
+  | .graph g isG ins outs body rest, V =>
+    bodyVis body (V ++ gvals iv g isG ins outs)
+      :: (allScopes iv body (V ++ gvals iv g isG ins outs) ++ allScopes iv rest V)
+
+/-- the nodes directly in the item list `t` (`bodyNodes subs = []` for a list of graph items) -/
+def bodyNodes : Tr → List Nat
+  | .nil => []
+  | .node n _ _ subs rest => n :: (bodyNodes subs ++ bodyNodes rest)
+  | .graph _ _ _ _ _ rest => bodyNodes rest
+
+/-- for every graph under `t`: its direct nodes -/
+def allNodeScopes : Tr → List (List Nat)
+  | .nil => []
+  | .node _ _ _ subs rest => allNodeScopes subs ++ allNodeScopes rest
+  | .graph _ _ _ _ body rest => bodyNodes body :: (allNodeScopes body ++ allNodeScopes rest)
+
+/-- every node under `t` -/
+def allNodes : Tr → List Nat
+  | .nil => []
+  | .node n _ _ subs rest => n :: (allNodes subs ++ allNodes rest)
+  | .graph _ _ _ _ body rest => allNodes body ++ allNodes rest
+
+/-- every value mentioned under `t` (not through initializer dictionaries) -/
+def mentioned : Tr → List Nat
+  | .nil => []
+  | .node _ ins outs subs rest => nodeVals ins outs ++ (mentioned subs ++ mentioned rest)
+  | .graph _ _ ins outs body rest => ins ++ outs ++ (mentioned body ++ mentioned rest)
+
+/-- the `Graph`s (not `Function`s) under `t` -/
+def graphsOf : Tr → List Nat
+  | .nil => []
+  | .node _ _ _ subs rest => graphsOf subs ++ graphsOf rest
+  | .graph g isG _ _ body rest => (if isG then [g] else []) ++ (graphsOf body ++ graphsOf rest)
+
+/-- executable form of the hypothesis `Closed` (every initializer mentioned under `t` belongs to a
+`Graph` under `t`); `closedB_iff` in `Lemmas/NamesTotal.lean` -/
+def closedB (io : Nat → Option Nat) (t : Top) : Bool :=
+  (mentioned t.tr).all (fun v => match io v with
+    | some g => (graphsOf t.tr).contains g
+    | none => true)
+
 /-! ## Part C — `convenience.rename_values` (`_convenience/__init__.py:364-453`)
 
 On the same `World`.  Arguments are typed (`values` are value ids, `names` are strings), so the two
@@ -328,6 +415,18 @@ def groupByGraph (initOf : Nat → Option Nat) (pairs : List (Nat × String)) : 
   let gs := (pairs.filterMap (fun p => initOf p.1)).eraseDups
   gs.map (fun g => (g, pairs.filter (fun p => initOf p.1 == some g)))
 
+/-- `existing is not None and existing is not value` -/
+def isOther (o : Option Nat) (v : Nat) : Bool :=
+  match o with
+  | some e => e != v
+  | none => false
+
+/-- `name in graph.initializers` held by a value that is neither `value` nor in the renamed set -/
+def isOutside (o : Option Nat) (v : Nat) (renamed : List Nat) : Bool :=
+  match o with
+  | some ex => ex != v && !renamed.contains ex
+  | none => false
+
 /-- the validation loop for one graph (`seen_targets` as an association list); `false` = raises
 `ValueError`: empty target, two renamed initializers with one target, or a target held by an
 initializer outside the renamed set -/
@@ -336,8 +435,8 @@ def validateLoop (d : List (String × Nat)) (renamed : List Nat) :
   | [], _ => true
   | (v, n) :: rest, seenT =>
     if n == "" then false
-    else if (match seenT.lookup n with | some e => e != v | none => false) then false
-    else if (match d.lookup n with | some ex => ex != v && !renamed.contains ex | none => false) then false
+    else if isOther (seenT.lookup n) v then false
+    else if isOutside (d.lookup n) v renamed then false
     else validateLoop d renamed rest ((n, v) :: seenT)
 
 def validateAll (w : World) (groups : List (Nat × List (Nat × String))) : Bool :=
@@ -379,6 +478,11 @@ where
 def setNameStep (wr : World × Bool) (p : Nat × String) : World × Bool :=
   if wr.2 then wr else wr.1.setName p.1 p.2
 
+/-- `for graph, initializer_values in ...items(): for value in initializer_values:` as one list of
+`(graph, value, target)` in iteration order -/
+def initTriples (groups : List (Nat × List (Nat × String))) : List (Nat × Nat × String) :=
+  groups.flatMap (fun gp => gp.2.map (fun p => (gp.1, p.1, p.2)))
+
 /-- `rename_values(values, names)`: validate everything first; then detach the renamed
 initializers, assign all names, re-register.  Returns the world and whether it raised. -/
 def renameValues (w : World) (pairs : List (Nat × String)) : World × Bool :=
@@ -387,9 +491,10 @@ def renameValues (w : World) (pairs : List (Nat × String)) : World × Bool :=
   | some ordered =>
     let groups := groupByGraph w.initOf ordered
     if !validateAll w groups then (w, true) else
+    let trip := initTriples groups
     let wr : World × Bool := (w, false)
-    let wr := groups.foldl (fun wr gp => gp.2.foldl (fun wr p => popInit wr gp.1 p.1) wr) wr
+    let wr := trip.foldl (fun wr t => popInit wr t.1 t.2.1) wr
     let wr := ordered.foldl setNameStep wr
-    groups.foldl (fun wr gp => gp.2.foldl (fun wr p => addInit wr gp.1 p.1) wr) wr
+    trip.foldl (fun wr t => addInit wr t.1 t.2.1) wr
 
 end IrVerif.Names
